@@ -1,5 +1,6 @@
 """C03 - branches, calls and returns transfer control exactly as hardware does."""
 import vlib
+import progcommon as pc
 import x86common as xc
 
 PROP = "C03"
@@ -10,6 +11,8 @@ def mc_cond(wd):
     res = vlib.tlc_mc("MC_Cond", "MC_Cond.cfg", wd, workers=8, timeout=1200)
     vlib.require_mc_ok(res, "MC_Cond")
     return res
+
+PROG_OWNS = lambda c, cls, m: cls == "flow" and c in ("rip", "out-spurious-error", "out-missing-fault")
 
 
 def run(tier, seed):
@@ -23,10 +26,19 @@ def run(tier, seed):
         xc.finish_cov(rep, res, mc, "Every Jcc/JMP/CALL/RET/JRCXZ/JECXZ form; rel8 and rel32, forward and backward landing pads, register- and "
                       "memory-indirect targets, RCX in {0,1,2^32,2^32-1<<32,..}; the same pad is stored in both candidate return slots so that "
                       "only the branch semantics is judged here (the stack slot is C04's).")
+        pc.phase(rep, tier, seed + 8300, wd, PROG_OWNS)
         return rep.finish()
     finally:
         vlib.cleanup(wd)
 
 
 def replay(path, seed):
+    import json as _j
+    _c = _j.load(open(path))["case"]
+    if _c.get("prog"):
+        _wd = vlib.workdir(PROP.lower() + "r")
+        try:
+            return pc.replay(vlib.Report(PROP, "quick", seed, "model_checking"), _c, _wd, PROG_OWNS)
+        finally:
+            vlib.cleanup(_wd)
     return xc.std_replay(PROP, path, seed, OWNS)
